@@ -31,6 +31,9 @@ BLOCKS = {
                        1.0, ['x'], ['G']),
     'two-exogenous':  ("x = 0.5*x + G - H\nd = x + H\nErr_Tolerance = 0.01\nMaxTime = 2\nexogenous\nG = [1., 2., 3.]\nH = [0.5, 0.5, 0.5]", 1.0, ['x'], ['G', 'H']),
     'time-in-eq':     ("x = 0.5*x + t\nErr_Tolerance = 0.01\nMaxTime = 2", 1.0, ['x'], []),
+    # constants in every literal spelling float() accepts (exponent forms, bare leading / trailing dot, signs), one of them used as a divisor
+    'constant-spellings': ("r = 2.5e-2\nb = coupon/r\ncoupon = 1E0\nm = -2\nh = .25\nw = 3.\nu = +1.5\nx = 0.5*x + G + h*m + w - u\nLB = b(k-1)\nb(0) = 40.0\n"
+                           "Err_Tolerance = 0.01\nMaxTime = 2\nexogenous\nG = [1., 2., 3.]", 0.5, ['x'], ['G']),
     'static-user-time': ("x = 0.5*y + c\ny = 0.5*x + 1\nc = 2.0\nt = 2016.\nErr_Tolerance = 0.01\nMaxTime = 2", 0.5, ['x', 'y'], []),
 }
 
@@ -150,9 +153,20 @@ def case_run(item):
                 for v in nonlagged:
                     if len(getattr(obj, v)) != 3:
                         props.append(z3.BoolVal(False))
+            # stated constants and initial conditions are the k=0 values
+            for v, eqn in parser.Endogenous:
+                try:
+                    cval = float(eqn)
+                except ValueError:
+                    continue
+                if v not in prev:
+                    props.append(L(getattr(obj, v)[0]) == symx.rat(cval))
+            for v, icv in parser.InitialConditions.items():
+                if v not in prev:
+                    props.append(L(getattr(obj, v)[0]) == symx.rat(float(icv)))
             r, m = D.holds(z3.And(props))
             if r == 'sat' and out['viol'] is None:
-                out['viol'] = {'why': 'an equation of the block does not hold at the generated module`s values',
+                out['viol'] = {'why': 'an equation of the block (or a stated constant / initial condition at k=0) does not hold at the generated module`s values',
                                'vals': {kk: str(m.eval(v, model_completion=True)) for kk, v in syms.items()}}
             elif r == 'unknown':
                 out['unknown'] += 1
@@ -210,6 +224,12 @@ try:
         for v, e in parser.Endogenous:
             r = abs(env[v] - eval(e, {}, env))
             if r > (gain + 1e-9) * tol * (1 + 1e-9) + 1e-12: print('period', k, v, 'residual', r); bad = True
+    for v, e in parser.Endogenous:
+        try: cval = float(e)
+        except ValueError: continue
+        if v not in prev and getattr(obj, v)[0] != cval: print('constant', v, '=', e, 'but its k=0 value is', getattr(obj, v)[0]); bad = True
+    for v, icv in parser.InitialConditions.items():
+        if v not in prev and getattr(obj, v)[0] != float(icv): print('initial condition', v, '=', icv, 'but its k=0 value is', getattr(obj, v)[0]); bad = True
     sys.exit(1 if bad else 0)
 finally:
     shutil.rmtree(scratch, ignore_errors=True)
